@@ -127,6 +127,11 @@ pub fn verif_dir() -> PathBuf {
     std::env::var_os("VERIF_DIR").map_or_else(|| PathBuf::from("/verif"), PathBuf::from)
 }
 
+/// where evidence and replay files go (the seeded-change runner redirects them)
+pub fn out_dir() -> PathBuf {
+    std::env::var_os("VERIF_OUT").map_or_else(verif_dir, PathBuf::from)
+}
+
 pub fn load_findings() -> Vec<Finding> {
     let p = verif_dir().join("known_findings.json");
     let Ok(text) = std::fs::read_to_string(&p) else { return Vec::new() };
@@ -295,7 +300,7 @@ pub struct RunCtx {
 /// Writes evidence + replay files, prints KNOWN-FINDING / VIOLATION lines, returns the exit code.
 pub fn finish(ctx: &RunCtx, meta: &CheckMeta, report: &Report) -> i32 {
     let findings = load_findings();
-    let dir = verif_dir();
+    let dir = out_dir();
     let wall = ctx.started.elapsed().as_secs_f64();
 
     let mut known_seen: BTreeMap<String, (String, u64)> = BTreeMap::new();
